@@ -14,7 +14,13 @@ static void completeness_case(Ctx &ctx, size_t entry) {
   ctx.desc << s->desc.str();
   ctx.label(e.name);
   if (s->n >= 3 || s->kappa >= 2 || (!s->n && !s->kappa)) ctx.nontrivial(s->desc.str() + "|" + (r.p_lines.empty() ? "" : r.p_lines[0]));
-  if (!r.accepted) ctx.fail(std::string("completeness/") + e.name + "/honest-proof-rejected", s->desc.str() + (r.threw ? " threw: " + r.what : "") + (r.stalled ? " (stalled)" : ""));
+  if (!r.accepted) { ctx.fail(std::string("completeness/") + e.name + "/honest-proof-rejected", s->desc.str() + (r.threw ? " threw: " + r.what : "") + (r.stalled ? " (stalled)" : "")); return; }
+  // the same statement proved once more with the SAME prover and verifier objects: applications keep one instance per game, so state
+  // that a first proof leaves behind (tables, scratch members, counters) must not make the second honest proof fail
+  if (ctx.c.prob(1, 3)) {
+    RunResult r2 = run_scenario(ctx, *s); ctx.label("second-proof-on-same-objects");
+    if (!r2.accepted) ctx.fail(std::string("completeness/") + e.name + "/honest-proof-rejected/second-proof-on-same-objects", s->desc.str() + (r2.threw ? " threw: " + r2.what : "") + (r2.stalled ? " (stalled)" : ""));
+  }
 }
 // every registry entry in turn (index mod registry size), parameters generated
 VF_ENUM(honest_proof_accepted, 27 * 45, 27 * 900) { size_t i = ctx.c.raw(); completeness_case(ctx, i % REGISTRY_BASE); }
